@@ -124,3 +124,51 @@ func VerifC09CapSize(pre int) {
 	}
 	vrf.Cover("capsize-done")
 }
+
+// VerifC09FirstDeliveries: several deliveries to a mailbox that does not exist yet run
+// concurrently (two under the engine, eight natively where the schedule cannot be dictated):
+// under every explored schedule each acknowledged delivery is in the mailbox afterwards, with its
+// own id.
+func VerifC09FirstDeliveries(pre int) {
+	iters, n := 1, 2
+	if !vrf.Symbolic() {
+		iters, n = 400, 8
+	}
+	for it := 0; it < iters; it++ {
+		st, err := New(config.Storage{}, extension.NewHost())
+		if err != nil {
+			return
+		}
+		vrf.Preemptions(pre)
+		done := make(chan string, 8)
+		for g := 0; g < n; g++ {
+			go func() {
+				id, aerr := st.AddMessage(&vrfIn{mailbox: "fresh", subject: "s", src: vrf.ZeroBytes(10)})
+				if aerr != nil {
+					id = "!"
+				}
+				done <- id
+			}()
+		}
+		var ids []string
+		for g := 0; g < n; g++ {
+			select {
+			case id := <-done:
+				ids = append(ids, id)
+			case <-time.After(3 * time.Second):
+				vrf.Assert("concurrent-deliveries-return", false)
+				return
+			}
+		}
+		ms, lerr := st.GetMessages("fresh")
+		vrf.Assert("list-noerr", lerr == nil)
+		vrf.Assert("every-acknowledged-delivery-stored", len(ms) == n)
+		for i := range ids {
+			vrf.Assert("delivery-succeeded", ids[i] != "!")
+			for j := 0; j < i; j++ {
+				vrf.Assert("ids-distinct", ids[i] != ids[j])
+			}
+		}
+	}
+	vrf.Cover("first-deliveries-done")
+}
